@@ -105,6 +105,15 @@ def short(s, n=110):
     return s if len(s) <= n else s[:n - 3] + '...'
 
 
+def _is_chain(e):
+    """x.a.b['k'] : names, attributes and constant subscripts only"""
+    while isinstance(e, (ast.Attribute, ast.Subscript)):
+        if isinstance(e, ast.Subscript) and not isinstance(e.slice, (ast.Constant, ast.Name)):
+            return False
+        e = e.value
+    return isinstance(e, ast.Name)
+
+
 def path_must(logic, path, upto=None, depth=1):
     """Literals certainly established by the branch decisions before event
     index `upto` (later writes to the tested locations are not tracked; the
@@ -114,11 +123,30 @@ def path_must(logic, path, upto=None, depth=1):
     evs = path.events if upto is None else path.events[:upto]
     from ..skel import _track_consts, _subst
     cenvs = {}        # per frame: boolean flag locals as they were last assigned on this path
+    alias = {}        # per frame: local -> the attribute/subscript chain it was last bound to on this path
     for e in evs:
         if e.kind == 'stmt' and e.node is not None and isinstance(e.node, (ast.Assign, ast.AugAssign, ast.AnnAssign)):
             _track_consts(e.node, cenvs.setdefault(id(e.frame), {}))
+            al = alias.setdefault(id(e.frame), {})
+            n_ = e.node
+            tgts = n_.targets if isinstance(n_, ast.Assign) else [n_.target]
+            for t_ in tgts:
+                for x in ast.walk(t_):
+                    if isinstance(x, ast.Name):
+                        al.pop(x.id, None)
+                    elif isinstance(x, ast.Attribute) and isinstance(x.ctx, ast.Store):
+                        # the location a local stood for is rebound: the local keeps the old object
+                        for k in [k for k, v in al.items() if any(
+                                isinstance(y, ast.Attribute) and y.attr == x.attr for y in ast.walk(v))]:
+                            del al[k]
+            if isinstance(n_, ast.Assign) and len(n_.targets) == 1 and isinstance(n_.targets[0], ast.Name) \
+                    and isinstance(n_.value, (ast.Attribute, ast.Subscript)) and _is_chain(n_.value) \
+                    and n_.targets[0].id not in e.frame.aliases and not any(
+                        isinstance(y, ast.Name) and y.id == n_.targets[0].id for y in ast.walk(n_.value)):
+                al[n_.targets[0].id] = _subst(n_.value, al)
         if e.kind == 'test':
             node = _subst(e.node, cenvs.get(id(e.frame)) or {})
+            node = _subst(node, alias.get(id(e.frame)) or {})
             if isinstance(node, ast.Constant):
                 continue
             alts = logic.dnf(node, e.frame, e.pol, depth=depth)
